@@ -4,8 +4,10 @@
    Key paths handed to the scalar step are non-empty by construction (init ++ [last]),
    which is what the Go code's keyPath[len(keyPath)-1] relies on. *)
 From Model Require Export Tables.
+From Gen Require Import Limits.
 
-Definition ip_placeholder : string := "255.255.255.255:65535".
+(* not written down here: measured on the compiled program on every run (Gen/Limits.v) *)
+Definition ip_placeholder : string := ip_placeholder_dumped.
 
 Record consts := {
   c_isodate : string;  (* RedactedISODate *)
